@@ -351,15 +351,15 @@ def regCallRule (name : Str) (idx : Rx) : M Rx :=
   else fail "NotImplementedError"
 
 /-- first-occurrence slice of a register family (capture number assigned later) -/
-def regDefSlice (name : Str) : M Rx :=
+def regDefSlice (name : Str) (i : Nat) : M Rx :=
   if "&genreg".toList.isPrefixOf name then
-    pure (.seq (.cap 0 .any) (.cls false [.ch 'x', .ch 'h', .ch 'l']))
+    pure (.seq (.cap i .any) (.cls false [.ch 'x', .ch 'h', .ch 'l']))
   else if "&indreg".toList.isPrefixOf name then
-    pure (seqAll [.cap 0 (.cls false [.ch 's', .ch 'd']), .chr 'i', .opt (.chr 'l')])
+    pure (seqAll [.cap i (.cls false [.ch 's', .ch 'd']), .chr 'i', .opt (.chr 'l')])
   else if "&stackreg".toList.isPrefixOf name then
-    pure (seqAll [.cap 0 (lit "sp".toList), .opt (.chr 'l')])
+    pure (seqAll [.cap i (lit "sp".toList), .opt (.chr 'l')])
   else if "&basereg".toList.isPrefixOf name then
-    pure (seqAll [.cap 0 (lit "bp".toList), .opt (.chr 'l')])
+    pure (seqAll [.cap i (lit "bp".toList), .opt (.chr 'l')])
   else fail "Register type not found"
 
 def derefChildNames : List Str :=
@@ -425,21 +425,29 @@ def comp (fl : Flags) (caps : List Str) : Pat → M Rx
     if nKids = 0 then pure (lit name)
     else if nKids = 1 then fail "NotImplementedError: untyped child"
     else fail "Children list must contain exactly one element"
-  | .capInstDef _ =>
-    pure (seqAll [ignoreInstAddr, .cap 0 (.plus clsNotBar), .chr ',', .esc '|'])
+  | .capInstDef name => do
+    -- the group is numbered by its registration index; for definitions on the spine this is also
+    -- its textual position (checked on every compiled rule: `Rx.wf` after `renumber`)
+    let i ← capIndex caps name
+    pure (seqAll [ignoreInstAddr, .cap i (.plus clsNotBar), .chr ',', .esc '|'])
   | .capInstRef name => do
     let i ← capIndex caps name
     pure (seqAll [ignoreInstAddr, .bref i, .chr ',', .esc '|'])
-  | .capOpDef _ => pure (.seq (.cap 0 (.plus clsNotCommaBar)) (.chr ','))
+  | .capOpDef name => do
+    let i ← capIndex caps name
+    pure (.seq (.cap i (.plus clsNotCommaBar)) (.chr ','))
   | .capOpRef name => do
     let i ← capIndex caps name
     pure (.seq (.bref i) (.chr ','))
-  | .capDerefDef _ => pure (.cap 0 (.plus clsNotCommaBar))
+  | .capDerefDef name => do
+    let i ← capIndex caps name
+    pure (.cap i (.plus clsNotCommaBar))
   | .capDerefRef name => do
     let i ← capIndex caps name
     pure (.seq (.bref i) optionalComma)
   | .regDef name => do
-    let slice ← regDefSlice name
+    let i ← capIndex caps (removeAccessSuffix name)
+    let slice ← regDefSlice name i
     pure (seqAll [optionalPercent, .opt (.cls false [.ch 'r', .ch 'e']), slice, optionalComma])
   | .regRef name => do
     let i ← capIndex caps (removeAccessSuffix name)
@@ -482,6 +490,19 @@ def Rx.renumber : Rx → Nat → Rx × Nat
 def typeTree (tree : Y) : M (Pat × List Str) := do
   let node ← build tree
   typ .general .none node []
+
+/-- the capture groups are numbered by the engine in textual order (`renumber`); `stableNumbering`
+says that this coincides with the registration indices `comp` wrote into the `cap` nodes -/
+def Rx.capNumbers : Rx → List Nat
+  | .seq a b => a.capNumbers ++ b.capNumbers
+  | .alt a b => a.capNumbers ++ b.capNumbers
+  | .grp r => r.capNumbers
+  | .rep r _ _ => r.capNumbers
+  | .opt r => r.capNumbers
+  | .plus r => r.capNumbers
+  | .nla r => r.capNumbers
+  | .cap n r => n :: r.capNumbers
+  | _ => []
 
 /-- `{"$and": patterns}` → regex -/
 def compileTree (fl : Flags) (tree : Y) : M Rx := do
